@@ -8,7 +8,12 @@ def real_binary(ctx):
     for name, w in realbin.start_preconditions(ninja):
         ctx.violation(name, 'real binary: tools/realbin.py start_preconditions\n', w)
 
+def motifs(ctx):
+    import random
+    rnd = random.Random(ctx.seed * 4 + 1)
+    return [ec.motif_dyndep_rescan_deps_missing(rnd, 'C04_rs%d' % i) for i in range(60 if ctx.quick() else 600)]
+
 def run(ctx):
     real_binary(ctx)
     engcommon.run_engine_property(ctx, 'C04', plan_accept=600, oracles=[('start-order', lambda h, st, b, prev: ec.oracle_c04(h, st, b))], faults=0.15,
-                                  feat=dict(subdirs=0.5, rsp=0.4, orderonly=0.5, dyndep=0.3))
+                                  feat=dict(subdirs=0.5, rsp=0.4, orderonly=0.5, dyndep=0.3), extra_hists=motifs)
